@@ -2,6 +2,9 @@
 from __future__ import annotations
 
 import importlib
+import os
+import signal
+import threading
 import time
 import traceback
 
@@ -185,6 +188,16 @@ def generate(prop: str, only=None):
             rep.paths = 1
             continue
         t0 = time.time()
+        # wall-clock limit of the symbolic execution of ONE function (a change of the source can make the number of paths
+        # explode): past it the function is undecided, never silently skipped and never a violation
+        limit = int(os.environ.get("PYVC_GEN_LIMIT", "900"))
+        use_alarm = limit > 0 and threading.current_thread() is threading.main_thread()
+        if use_alarm:
+            def _too_long(signum, frame, _t=target, _l=limit):
+                raise Undecided(f"symbolic execution of {_t} exceeded the wall-clock limit of {_l} s (path explosion)")
+
+            old_handler = signal.signal(signal.SIGALRM, _too_long)
+            signal.alarm(limit)
         try:
             rep.finfo = S.load_function(target, setter=ct.setter)
             ex = Executor(ct, rep.finfo, prop, make_models())
@@ -197,6 +210,10 @@ def generate(prop: str, only=None):
             rep.status, rep.reason = "undecided", f"{type(e).__name__}: {e}"
         except Exception:  # noqa: BLE001
             rep.status, rep.reason = "error", traceback.format_exc()
+        finally:
+            if use_alarm:
+                signal.alarm(0)
+                signal.signal(signal.SIGALRM, old_handler)
         rep.gen_seconds = time.time() - t0
     return reports
 
